@@ -202,7 +202,8 @@ pub fn record(seed: u64, tier: &str, out_path: &str) {
                     2 => { let pos = rng.range(1, 4); json!({"k": "set", "pos": pos, "val": rng.below(256)}) }
                     3..=6 => { let pos = rng.range(5, len_now.max(5) as u64); json!({"k": "flip", "pos": pos, "bit": 0, "rbit": rng.below(8)}) }
                     7..=8 => { let l = rng.below(len_now.max(1) as u64); len_now = l as usize; json!({"k": "trunc", "len": l}) }
-                    _ => json!({"k": "ext", "n": *rng.pick(&[1u64, 16])}),
+                    // (extension lengths include those a narrowed length computation wraps on: 2^8, 2^16, 2^17 and neighbours)
+                    _ => json!({"k": "ext", "n": *rng.pick(&[1u64, 16, 1, 16, 255, 256, 257, 65_535, 65_536, 65_537, 131_072])}),
                 };
                 let pos_ok = op["k"] != "flip" && op["k"] != "set" || (op["pos"].as_u64().unwrap() as usize) <= len_now;
                 // a second change of the same byte could restore it; keep positions distinct
